@@ -40,8 +40,13 @@ def serialize_json(
     serialize = partial(
         _serialize_element, object_refs=True, definitions=definitions
     )
+    primary_schema = serialize(primary)
+    if not isinstance(primary_schema, dict):
+        # `Nothing()` is the boolean schema `false`, which has no keywords
+        # to attach definitions to (and no children to define).
+        return primary_schema
     schema: Dict[str, Any] = {
-        **serialize(primary),
+        **primary_schema,
         "definitions": {
             object_class.__name__: serialize(object_class)
             for object_class in object_classes
